@@ -6,7 +6,7 @@
        fuel exhaustion ([run_gob_total]), for any tables in which no read statement calls GobDecode
        through a nil *Endpoints ([gob_dec_safe]). *)
 From AP.Model Require Import Prelude Vocab Bytes Layout Pred Dispatch GobTables Gob GobTotal.
-From AP.Proofs Require Import NlvP ViewsP.
+From AP.Proofs Require Import NlvP ViewsP GobCodecP.
 From Coq Require Import Lia.
 
 (* ------------------------------------------------------------------ depth *)
@@ -55,7 +55,7 @@ Proof.
   apply omapM_ext. intros x Hx. pose proof (gd_list_depth _ _ _ Hl Hx). lia.
 Qed.
 
-Lemma rdec0_ext c cur w : wire_depth w < d -> rdec0 rec c cur w = rdec0 rec' c cur w.
+Lemma rdec0_ext c cur w : wire_depth w < d -> rdec0 E rec c cur w = rdec0 E rec' c cur w.
 Proof.
   intros Hw. destruct c; simpl; try reflexivity.
   - now rewrite Hrr.
@@ -76,7 +76,7 @@ Qed.
 
 Lemma rdec_leaf_ext n cur w : wire_depth w <= d -> rdec_leaf E rec n cur w = rdec_leaf E rec' n cur w.
 Proof.
-  intros Hw. unfold rdec_leaf. destruct (gd_map w) as [mm| | |] eqn:Hm; destruct w; simpl; try reflexivity;
+  intros Hw. unfold rdec_leaf. destruct (gd_map w) as [mm| | |] eqn:Hm; destruct w; simpl; try reflexivity; try discriminate Hm;
     unfold gunmap_gen; apply fold_rstep_ext;
     try (intros k x Hx; pose proof (gd_map_depth _ _ _ _ Hm Hx); lia); intros; now apply rdec0_ext.
 Qed.
@@ -85,8 +85,8 @@ Lemma rdec_ext c cur w : wire_depth w < d -> rdec E rec c cur w = rdec E rec' c 
 Proof.
   intros Hw. destruct c; try (apply rdec0_ext; exact Hw); unfold rdec.
   - unfold rdec_source. rewrite rdec_leaf_ext by lia. reflexivity.
-  - unfold rdec_endpoints_fn. rewrite rdec_leaf_ext by lia. reflexivity.
-  - unfold rdec_endpoints_fn. rewrite rdec_leaf_ext by lia. reflexivity.
+  - unfold rdec_endpoints_method. rewrite rdec_leaf_ext by lia. reflexivity.
+  - unfold rdec_endpoints_fn, rdec_endpoints_method. rewrite rdec_leaf_ext by lia. reflexivity.
   - unfold rdec_pubkey. rewrite rdec_leaf_ext by lia. reflexivity.
 Qed.
 
@@ -227,11 +227,11 @@ Proof.
   intros l Hl. apply omapM_returns. intros x Hx. pose proof (gd_list_depth _ _ _ Hl Hx). lia.
 Qed.
 
-Lemma rdec0_returns c cur w : wire_depth w < d -> returns (rdec0 rec c cur w).
+Lemma rdec0_returns c cur w : wire_depth w < d -> returns (rdec0 E rec c cur w).
 Proof.
   intros Hw. destruct c; simpl; try exact I;
-    try (apply obind_returns; [|intros; exact I]);
-    auto using rdec_mime_returns, rdec_nlv_returns, gd_int_returns, gd_uint_returns, gd_float_returns, gd_bool_returns.
+    try (apply omap_returns'; first [apply lr_method_returns | apply lr_helper_returns]);
+    try (apply obind_returns; [|intros; exact I]); auto.
   - destruct w; exact I.
   - apply dec_items_returns. lia.
 Qed.
@@ -251,7 +251,7 @@ Qed.
 Lemma rdec_leaf_returns n cur w : wire_depth w <= d -> returns (rdec_leaf E rec n cur w).
 Proof.
   intros Hw. unfold rdec_leaf.
-  assert (H : returns (obind (gd_map w) (fun mm => gunmap_gen (rdec0 rec) (leaf_r E n) mm cur))).
+  assert (H : returns (obind (gd_map w) (fun mm => gunmap_gen (rdec0 E rec) (leaf_r E n) mm cur))).
   { apply obind_returns; [apply gd_map_returns|]. intros mm Hm. unfold gunmap_gen. apply fold_rstep_returns; [|exact I].
     intros f key cn pos c cur0 raw _ Hr _. apply rdec0_returns. pose proof (gd_map_depth _ _ _ _ Hm Hr). lia. }
   destruct w; first [exact H|exact I].
@@ -263,7 +263,8 @@ Proof.
   intros Hc Hw. destruct c; try (apply rdec0_returns; exact Hw); unfold rdec.
   - unfold rdec_source. apply obind_returns; [apply rdec_leaf_returns; lia|]. intros; exact I.
   - rewrite (Hc eq_refl). exact I.
-  - unfold rdec_endpoints_fn. destruct (ge_endpoints_codec E); [|exact I].
+  - unfold rdec_endpoints_fn, rdec_endpoints_method. destruct (endpoints_fn_shape _); [|exact I].
+    destruct (ge_endpoints_codec E); [|exact I].
     apply obind_returns; [apply rdec_leaf_returns; lia|]. intros; exact I.
   - unfold rdec_pubkey. apply obind_returns; [apply rdec_leaf_returns; lia|]. intros; exact I.
 Qed.
@@ -305,8 +306,8 @@ Proof.
   intros Hw. destruct s as [fn pos|fn tkey always pos|pos|src pos]; simpl; try exact I.
   - unfold sniff_try. destruct (bytes_eqb fn fn_try_items).
     + pose proof (dec_items_returns w Hw) as H. destruct (dec_items rec w); simpl in *; try contradiction; exact I.
-    + destruct (bytes_eqb fn fn_try_iris); [destruct (dec_iris w); exact I|].
-      destruct (bytes_eqb fn fn_try_iri); exact I.
+    + destruct (bytes_eqb fn fn_try_iris); [destruct (dec_iris_t E w _); exact I|].
+      destruct (bytes_eqb fn fn_try_iri); [destruct (lr_method E _ _ w); exact I|exact I].
   - destruct (bytes_eqb fn fn_as_map); [|exact I]. destruct (gd_map w) as [mm| | |] eqn:Hm; try exact I.
     destruct (always || has_key tkey mm || has_key (B "id") mm); [|exact I]. simpl.
     apply dec_object_returns. intros k x Hx. pose proof (gd_map_depth _ _ _ _ Hm Hx). lia.
@@ -349,15 +350,18 @@ Proof.
       - intros e He. eapply rflatten_safe; eauto.
       - intros k0 x Hx. pose proof (gd_map_depth _ _ _ _ Hm Hx). lia. }
     destruct w; first [exact H|exact I].
-  - apply dec_iris_returns.
-  - apply rdec_mime_returns.
-  - apply rdec_mime_returns.
-  - apply rdec_mime_returns.
-  - apply rdec_nlv_returns.
+  - apply lr_method_returns.
+  - apply lr_method_returns.
+  - apply dec_iris_t_returns.
+  - apply lr_method_returns.
+  - apply lr_method_returns.
+  - apply lr_method_returns.
+  - apply lr_method_returns.
   - unfold rdec_source. apply obind_returns; [|intros; exact I]. eapply rdec_leaf_returns; [exact Hg|lia].
   - unfold rdec_pubkey. apply obind_returns; [|intros; exact I]. eapply rdec_leaf_returns; [exact Hg|lia].
-  - unfold rdec_endpoints_fn. destruct (ge_endpoints_codec E); [|exact I].
+  - unfold rdec_endpoints_method. destruct (ge_endpoints_codec E); [|exact I].
     apply obind_returns; [|intros; exact I]. eapply rdec_leaf_returns; [exact Hg|lia].
+  - apply lr_method_returns.
 Qed.
 
 Lemma dec_fuel_sufficient E : gob_dec_safe E = true ->
